@@ -168,6 +168,7 @@ type Interp struct {
 	pcFacts   map[*Term]bool
 	noMerge   bool
 	enum2     bool
+	bypassExt *ssa.Function // extern wrappers: run this function's own body once
 	enumWork  int64
 	canonMemo map[*Term]canonEnt
 	allowInit *ssa.Function
@@ -915,7 +916,7 @@ func (in *Interp) callSSA(caller *frame, fn *ssa.Function, args []value, env []v
 			fi.ext = extUniqueMake
 		}
 	}
-	if fi.ext != nil {
+	if fi.ext != nil && in.bypassExt != fn {
 		save := in.curFrame
 		in.curFrame = fr
 		r := fi.ext(in, fr, args)
